@@ -103,7 +103,7 @@ Section RT.
     end.
 
   (* scalars, enums by name and by value, Array/Deque of the fragment, Map from plain scalars to the
-     fragment, Set of the fragment, Tuple of plain scalars, nested structures, AnyOf (Optional included) over
+     fragment, Set of the fragment, Tuple of the fragment, nested structures, AnyOf (Optional included) over
      ANY options provided the value distinguishes them ([wfv]) *)
   Fixpoint frag (f : field) : bool :=
     match f with
@@ -112,7 +112,7 @@ Section RT.
     | FClassRef _ => true
     | FAnyOf _ => true          (* the conditions on the options are on the VALUE: see [wfv] *)
     | FSet false (Some g) _ => frag g                 (* Set[g]; an ImmutableSet comes back as a plain set *)
-    | FTuple items _ => forallb plain_scalar items    (* Tuple over plain scalars, positional or homogeneous *)
+    | FTuple items _ => forallb frag items            (* Tuple of the fragment, positional or homogeneous *)
     | _ => scalar_frag f
     end.
 
@@ -131,22 +131,21 @@ Section RT.
     Variable recS : pyval -> res pyval.
     Variable recD : bool -> pystr -> pyval -> res pyval.
 
-    (* a stored value of a plain scalar declaration; the elements of a tuple against its item declarations: a Tuple
-       with ONE item declaration holds any number of elements of it (none included); otherwise element i stands
-       against declaration i (positions beyond the declared ones are appended RAW by the deserializer, so they must
-       be JSON scalars already) *)
-    Definition wfv_plain (g : field) (x : pyval) : Prop :=
-      validate_weak re_match e g x = Ok tt /\ json_scalar x = true /\ x <> PNone.
-    Fixpoint tuple_pos_wf (gs : list field) (xs : list pyval) : Prop :=
-      match gs, xs with
-      | [], _ => Forall (fun x => json_scalar x = true /\ x <> PNone) xs
-      | _ :: _, [] => False
-      | g :: gs', x :: xs' => wfv_plain g x /\ tuple_pos_wf gs' xs'
-      end.
-    Definition tuple_wf (gs : list field) (xs : list pyval) : Prop :=
+    (* the elements of a tuple against its item declarations ([W g x]: x is a stored value of g): a Tuple with ONE item
+       declaration holds any number of elements of it (none included); otherwise element i stands against declaration i
+       (positions beyond the declared ones have no declaration: they are serialized without one and appended RAW by the
+       deserializer, so they must be JSON scalars already) *)
+    Definition tuple_pos_wf (W : field -> pyval -> Prop) :=
+      fix tw (gs : list field) (xs : list pyval) {struct gs} : Prop :=
+        match gs, xs with
+        | [], _ => Forall (fun x => json_scalar x = true /\ x <> PNone) xs
+        | _ :: _, [] => False
+        | g :: gs', x :: xs' => W g x /\ tw gs' xs'
+        end.
+    Definition tuple_wf (W : field -> pyval -> Prop) (gs : list field) (xs : list pyval) : Prop :=
       match gs with
-      | [g] => Forall (wfv_plain g) xs
-      | _ => tuple_pos_wf gs xs
+      | [g] => Forall (W g) xs
+      | _ => tuple_pos_wf W gs xs
       end.
 
     (* "this option does not match, try the next one": any Python exception, of whatever class *)
@@ -170,7 +169,7 @@ Section RT.
       | FClassRef c => (exists a, v = PStruct c a) /\ canon' v
       | FSet false (Some g) _ =>
           exists l, v = PSet false l /\ Forall (wfv g) l /\ py_dedup l = l /\ forallb py_hashable l = true
-      | FTuple items _ => exists l, v = PTuple l /\ tuple_wf items l
+      | FTuple items _ => exists l, v = PTuple l /\ tuple_wf wfv items l
       | FAnyOf fs =>
           (* v is a value of one option g (the i-th) of the fragment, and it DISTINGUISHES the options: every option
              listed before g rejects v on the way out and rejects the serialized v on the way in (such an option need
@@ -276,59 +275,74 @@ Section RT.
           rewrite ?H3, ?H3'; cbn [bind build_seq]; rewrite Hh, Hdd; reflexivity.
       - (* FTuple *)
         cbn [frag] in Hf. cbn [wfv] in Hw. destruct Hw as (l & -> & Hl).
-        (* every element is a JSON scalar: serialized as it is, with or without its declaration *)
-        assert (Hsc : forall gs xs, tuple_pos_wf gs xs -> Forall (fun x => json_scalar x = true /\ x <> PNone) xs).
-        { induction gs as [|g gs IHg]; intros [|x xs] Hw; cbn [tuple_pos_wf] in Hw; auto; try contradiction.
-          destruct Hw as ((_ & Ha & Hb) & Hw). constructor; auto. }
-        assert (Hsc1 : forall g xs, Forall (wfv_plain g) xs -> Forall (fun x => json_scalar x = true /\ x <> PNone) xs).
-        { intros g xs Hx. eapply Forall_impl; [|exact Hx]. intros x (_ & Ha & Hb). auto. }
+        rename H into IHfs.
+        (* the elements past the declared positions are JSON scalars: serialized as they are *)
         assert (Hany : forall xs, Forall (fun x => json_scalar x = true /\ x <> PNone) xs -> mapR (ser_any recS) xs = Ok xs).
         { induction 1 as [|x xs (Ha & _) _ IHx]; [reflexivity|]. cbn [mapR]. rewrite IHx.
           destruct x as [| | [] | | | | | | | | |]; try discriminate; reflexivity. }
-        assert (Hall : Forall (fun x => json_scalar x = true /\ x <> PNone) l).
-        { unfold tuple_wf in Hl. destruct fs as [|g0 [|g1 fs']];
-            [exact (Hsc _ _ Hl) | exact (Hsc1 _ _ Hl) | exact (Hsc _ _ Hl)]. }
-        exists (PList l). unfold rt_goal. cbn [ser_val unless_none ser_plain_seq ser_each iter_items].
-        rewrite (Hany l Hall). cbn [bind]. split; [reflexivity|]. split.
-        { cbn [json_pure]. apply forallb_forall. intros y Hy. rewrite Forall_forall in Hall.
-          apply json_scalar_pure. apply Hall. exact Hy. }
-        split; [discriminate|].
-        intros ku ign.
-        assert (Hone : forall g x, plain_scalar g = true -> wfv_plain g x ->
-                  deser_val re_match e ens recD ku false g x = Ok x).
-        { intros g x Hp Hx. destruct (rt_plain g x Hp) as [(jx & Hs1 & _ & _ & Hd1) Hsx].
-          { destruct g; try discriminate; exact Hx. }
-          rewrite Hsx in Hs1. inversion Hs1; subst jx. apply Hd1. }
-        assert (Hpos : forall gs xs, forallb plain_scalar gs = true -> tuple_pos_wf gs xs ->
-                  (fix pos (fs0 : list field) (vs : list pyval) {struct fs0} : res (list pyval) :=
-                     match fs0 with
-                     | [] => Ok vs
-                     | g :: fs' =>
-                         match vs with
-                         | [] => Raise IndexError
-                         | x :: vs' =>
-                             y <- rewrap (deser_val re_match e ens recD ku false g x) ;;
-                             ys <- pos fs' vs' ;; Ok (y :: ys)
-                         end
-                     end) gs xs = Ok xs).
-        { induction gs as [|g gs IHg]; intros xs Hp Hw; [reflexivity|].
-          cbn [forallb] in Hp. apply andb_true_iff in Hp as [Hp1 Hp2].
-          destruct xs as [|x xs]; cbn [tuple_pos_wf] in Hw; [contradiction|]. destruct Hw as (Hx & Hw).
-          rewrite (Hone g x Hp1 Hx). cbn [rewrap bind]. rewrite (IHg xs Hp2 Hw). reflexivity. }
-        assert (Hlen : forall gs xs, tuple_pos_wf gs xs -> (length xs <? length gs)%nat = false).
-        { induction gs as [|g gs IHg]; intros xs Hw; [reflexivity|].
-          destruct xs as [|x xs]; cbn [tuple_pos_wf] in Hw; [contradiction|]. destruct Hw as (_ & Hw).
-          exact (IHg xs Hw). }
-        assert (Heach : forall g xs, plain_scalar g = true -> Forall (wfv_plain g) xs ->
-                  mapR (fun x => rewrap (deser_val re_match e ens recD ku false g x)) xs = Ok xs).
-        { intros g xs Hp. induction 1 as [|x xs Hx _ IHx]; [reflexivity|].
-          cbn [mapR]. rewrite (Hone g x Hp Hx). cbn [rewrap]. rewrite IHx. reflexivity. }
-        unfold tuple_wf in Hl. destruct fs as [|g0 [|g1 fs']].
-        + destruct ign; reflexivity.
-        + cbn [forallb] in Hf. apply andb_true_iff in Hf as [Hf _].
-          destruct ign; cbn [deser_val list_like]; cbn beta iota zeta; rewrite (Heach g0 l Hf Hl); reflexivity.
-        + destruct ign; cbn [deser_val list_like]; cbn beta iota zeta;
-            rewrite (Hlen _ _ Hl), (Hpos _ l Hf Hl); reflexivity.
+        assert (Hpure : forall xs, Forall (fun x => json_scalar x = true /\ x <> PNone) xs -> Forall (fun j => json_pure j = true) xs).
+        { intros xs Hx. eapply Forall_impl; [|exact Hx]. intros x (Ha & _). apply json_scalar_pure, Ha. }
+        (* positional: element i with declaration i, both ways *)
+        assert (Hpos : forall gs, Forall (fun g => frag g = true -> forall v, wfv g v -> rt_goal g v) gs ->
+                  forallb frag gs = true -> forall xs, tuple_pos_wf wfv gs xs ->
+                  exists js, ser_pos recS (ser_val re_match e ens recS) gs xs = Ok js /\
+                             Forall (fun j => json_pure j = true) js /\
+                             (length js <? length gs)%nat = false /\
+                             forall ku,
+                             (fix pos (fs0 : list field) (vs : list pyval) {struct fs0} : res (list pyval) :=
+                                match fs0 with
+                                | [] => Ok vs
+                                | g :: fs' =>
+                                    match vs with
+                                    | [] => Raise IndexError
+                                    | x :: vs' =>
+                                        y <- rewrap (deser_val re_match e ens recD ku false g x) ;;
+                                        ys <- pos fs' vs' ;; Ok (y :: ys)
+                                    end
+                                end) gs js = Ok xs).
+        { induction 1 as [|g gs Hg _ IHg]; intros Hp xs Hw.
+          - cbn [tuple_pos_wf] in Hw. exists xs. split; [|split; [exact (Hpure _ Hw)|split; [reflexivity|reflexivity]]].
+            destruct xs as [|x xs]; [reflexivity|]. cbn [ser_pos]. exact (Hany _ Hw).
+          - cbn [forallb] in Hp. apply andb_true_iff in Hp as [Hp1 Hp2].
+            destruct xs as [|x xs]; cbn [tuple_pos_wf] in Hw; [contradiction|]. destruct Hw as (Hx & Hw).
+            destruct (Hg Hp1 x Hx) as (j & H1 & H2 & _ & H4).
+            destruct (IHg Hp2 xs Hw) as (js & G1 & G2 & G3 & G4).
+            exists (j :: js). cbn [ser_pos]. fold (ser_pos recS (ser_val re_match e ens recS)). rewrite H1. cbn [bind].
+            rewrite G1. cbn [bind]. split; [reflexivity|]. split; [constructor; assumption|]. split; [exact G3|].
+            intro ku. rewrite (H4 ku false). cbn [rewrap bind]. rewrite (G4 ku). reflexivity. }
+        destruct fs as [|g0 [|g1 fs']].
+        + (* no item declaration *)
+          destruct (Hpos [] IHfs Hf l Hl) as (js & G1 & G2 & G3 & G4).
+          exists (PList js). unfold rt_goal. cbn [ser_val unless_none iter_items]. rewrite G1. cbn [bind].
+          split; [reflexivity|]. split.
+          { cbn [json_pure]. apply forallb_forall. intros y Hy. rewrite Forall_forall in G2. auto. }
+          split; [discriminate|].
+          intros ku ign. destruct ign; cbn [deser_val list_like]; cbn beta iota zeta; rewrite G3, (G4 ku); reflexivity.
+        + (* one item declaration: the declaration of every element *)
+          cbn [forallb] in Hf. apply andb_true_iff in Hf as [Hf _].
+          cbn [tuple_wf] in Hl. inversion IHfs as [|? ? IH0 _]; subst.
+          assert (HF : forall ku, exists js, mapR (ser_val re_match e ens recS g0) l = Ok js /\
+                         Forall (fun j => json_pure j = true) js /\
+                         mapR (fun j => rewrap (deser_val re_match e ens recD ku false g0 j)) js = Ok l).
+          { intro ku. apply mapR_rt. eapply Forall_impl; [|exact Hl]. intros x Hx.
+            destruct (IH0 Hf x Hx) as (j & H1 & H2 & _ & H4).
+            exists j. rewrite H4. split; [exact H1|]. split; [exact H2|reflexivity]. }
+          destruct (HF true) as (js & H1 & H2 & H3).
+          destruct (HF false) as (js' & H1' & _ & H3').
+          rewrite H1 in H1'. inversion H1'; subst js'.
+          exists (PList js). unfold rt_goal. cbn [ser_val unless_none ser_each iter_items]. rewrite H1. cbn [bind].
+          split; [reflexivity|]. split.
+          { cbn [json_pure]. apply forallb_forall. intros y Hy. rewrite Forall_forall in H2. auto. }
+          split; [discriminate|].
+          intros ku ign. destruct ku, ign; cbn [deser_val list_like]; cbn beta iota zeta;
+            rewrite ?H3, ?H3'; reflexivity.
+        + (* two or more: positional *)
+          destruct (Hpos (g0 :: g1 :: fs') IHfs Hf l Hl) as (js & G1 & G2 & G3 & G4).
+          exists (PList js). unfold rt_goal. cbn [ser_val unless_none iter_items]. rewrite G1. cbn [bind].
+          split; [reflexivity|]. split.
+          { cbn [json_pure]. apply forallb_forall. intros y Hy. rewrite Forall_forall in G2. auto. }
+          split; [discriminate|].
+          intros ku ign. destruct ign; cbn [deser_val list_like]; cbn beta iota zeta; rewrite G3, (G4 ku); reflexivity.
       - (* FMapKV *)
         cbn [frag] in Hf. apply andb_true_iff in Hf as [Hk Hv].
         destruct Hw as (kv & -> & Hkv & Hfresh).
